@@ -54,11 +54,18 @@ def umaxSkip : Bytes → Option Bytes
   | b :: bs => if (b :: bs).length > 8 then (if b ≠ 0 then none else umaxSkip bs) else some (b :: bs)
   | [] => some []
 
-/-- `asn_INTEGER2umax`: negative INTEGERs are read as large unsigned ones (finding F3) -/
+/-- the sign test of `asn_INTEGER2umax`: `size > 0 && (*b & 0x80)` -/
+def isNegative : Bytes → Bool
+  | b :: _ => decide (b ≥ 128)
+  | [] => false
+
+/-- `asn_INTEGER2umax`: a negative INTEGER (first content octet ≥ 0x80) is rejected with ERANGE
+    (since the repair of finding F3), then the leading-zero skipping loop and the conversion engine -/
 def INTEGER2umax (bs : Bytes) : Conv Nat :=
-  match umaxSkip bs with
-  | none => .erange
-  | some r => .ok (ofBE 0 r)
+  if isNegative bs then .erange
+  else match umaxSkip bs with
+    | none => .erange
+    | some r => .ok (ofBE 0 r)
 
 /-- `asn_INTEGER2long` (LONG_MIN..LONG_MAX = intmax range on LP64) -/
 def INTEGER2long (bs : Bytes) : Conv Int :=
